@@ -17,7 +17,7 @@ CONSTANTS
   WithNA = TRUE
   ExtraSet <- EX_none
   Export = TRUE
-  SampleMod = 8
+  SampleMod = 16
 INVARIANT NoRaise
 INVARIANT DisciplineHolds
 INVARIANT SameColumns
